@@ -54,6 +54,10 @@ def _subs(tier):
     S.append(_mk('twice-merge3-bottleneck', 'twice', MERGE3, [('off', 0, 10 ** 6)]))
     S.append(_mk('split-merge', 'split', MERGE, [('a', 0, 3 * T)], zero=['cs']))
     S.append(_mk('split-fanout', 'split', FAN, [('a', 0, 3 * T)], zero=['cs', 'c0']))
+    maint = L.with_ops(L.serial('P', 1), [{'k': 'shutdown', 'dev': 'p1', 't': 't0'}, {'k': 'restore', 'dev': 'p1', 't': 't1'}])
+    sub = _mk('split-inside-maintenance', 'split', maint, [('a', 0, 3 * T)], zero=['cs', 'c0'])
+    sub['pre'] = ['t0 < c1', 'c1 < a', 'a < t1']      # the paused timer's original due time lies before the split point
+    S.append(sub)
     S.append(_mk('twice-resources', 'twice', resources2(2), [('off', 0, 10 ** 6)], zero=['cs', 'c0']))
     if not q:
         S.append(_mk('split-resources', 'split', resources2(2), [('a', 0, 3 * T)], zero=['cs', 'c0']))
